@@ -123,6 +123,13 @@ func runC04(c *Ctx) {
 				gf.Name+": the URL attribute emission is not `var v templ.SafeURL = <expr>` followed by the HTML-escaped write of string(v). Only the typed declaration makes the Go compiler reject a plain string; a conversion templ.SafeURL(<expr>) or an untyped := accepts any string, so href={ userInput } compiles and is written unsanitised")
 		}
 	}
+	// for the dispatch rule the URL writer is the function that holds the emitting call itself (its text may be judged
+	// in a caller it is evaluated into)
+	urlSkeletonOwner := urlWriter
+	if lit := g.literalEmitter("templ.SafeURL = "); lit != nil && urlWriter != nil {
+		urlWriter = lit
+	}
+	_ = urlSkeletonOwner
 	if urlWriter == nil {
 		c.viol("C04.R2", "anchor-lost:url-attribute-writer", "", "no generator function emits `var … templ.SafeURL = <expr>`")
 	} else {
@@ -175,7 +182,7 @@ func runC04(c *Ctx) {
 				}
 				return true
 			})
-			if !calls || gf == urlWriter {
+			if !calls || gf == urlWriter && urlDesc == nil {
 				continue
 			}
 			found = true
@@ -264,6 +271,21 @@ func runC04(c *Ctx) {
 					}
 					if !takesAttr {
 						return true
+					}
+					// with a descriptor, what says "URL" is the descriptor handed over, not the callee
+					if urlDesc != nil {
+						for _, a := range call.Args {
+							if aid, ok := ast.Unparen(a).(*ast.Ident); ok {
+								if av, ok := g.info.Uses[aid].(*types.Var); ok && av.Parent() == gp.Types.Scope() && types.Identical(av.Type(), urlDesc.Type()) {
+									if types.Object(av) == urlDesc {
+										urlW = true
+									} else {
+										other = true
+									}
+									return true
+								}
+							}
+						}
 					}
 					if types.Object(fn) == urlWriter.Obj {
 						urlW = true
